@@ -368,7 +368,22 @@ lzma_lzma2_encoder_memusage(const void *options)
 	if (lzma_mem == UINT64_MAX)
 		return UINT64_MAX;
 
-	return sizeof(lzma_lzma2_coder) + lzma_mem;
+	// With small dictionaries lzma2_encoder_init() makes before_size
+	// bigger than what the LZMA encoder asked for so that LZMA2_CHUNK_MAX
+	// bytes of history are always available for uncompressed chunks.
+	// lzma_lzma_encoder_memusage() doesn't know about that. The LZ encoder
+	// allocates one and a half bytes for every byte of before_size
+	// (keep_size_before plus half of it in the reserve). The amount
+	// added here is a little more than what the buffer really grows
+	// because the original before_size isn't subtracted.
+	const lzma_options_lzma *opt = options;
+	uint64_t extra = 0;
+	if (opt->dict_size < LZMA2_CHUNK_MAX) {
+		extra = LZMA2_CHUNK_MAX - opt->dict_size;
+		extra += extra / 2;
+	}
+
+	return sizeof(lzma_lzma2_coder) + lzma_mem + extra;
 }
 
 
